@@ -840,7 +840,7 @@ structure TSInv (M : Nat) (t : TS) : Prop where
   max : t.lim.max = M
 
 theorem Arena.append_ok_tsinv {M : Nat} {l l' : Limiter} {a a' : Arena} {bs : Bytes}
-    (h : Arena.append l a bs = .ok (l', a')) (h1 : a.len ≤ a.cap) (h2 : a.cap ≤ l.usage)
+    (h : Arena.append l a bs = .ok (l', a')) (_h1 : a.len ≤ a.cap) (h2 : a.cap ≤ l.usage)
     (h3 : a.cap ≤ M) (h4 : l.max = M) :
     a'.len ≤ a'.cap ∧ a'.cap ≤ l'.usage ∧ a'.cap ≤ M ∧ l'.max = M ∧ a'.data = a.data ++ bs := by
   obtain ⟨p1, p2, p3, p4, p5, p6⟩ := Arena.append_ok h
